@@ -326,33 +326,25 @@ theorem partyColumn_ok_of_nested (g : D) (h : ∀ p ∈ g, ∃ d, p.2 = V.dict d
     ∃ x, partyColumn (.dict g) k = .ok x := by
   have hitems : (V.dict g).items = .ok g := rfl
   simp only [partyColumn, hitems, ok_bind]
-  suffices hs : ∃ r, g.filterMapM (fun p => do
-      let b ← keyIn k p.2
-      if b then do
-        let cg ← p.2.items
-        match D.get? cg k with
-        | some x => pure (some (p.1, x))
-        | Option.none => throw eKey
-      else pure Option.none) = .ok r by
+  suffices hs : ∃ r, g.filterMapM (columnEntry k) = .ok r by
     obtain ⟨r, hr⟩ := hs
     exact ⟨.dict r, by rw [hr]; rfl⟩
   induction g with
   | nil => exact ⟨[], by simp⟩
   | cons p ps ih =>
-    obtain ⟨r, hr⟩ := ih (fun q hq => h q (by simp [hq]))
+    obtain ⟨r, hr⟩ := ih (fun q hq => h q (by simp [hq])) rfl
     obtain ⟨d, hd⟩ := h p (by simp)
-    simp only [List.filterMapM_cons, hd, keyIn, V.items, ok_bind]
-    by_cases hk : D.has d k = true
-    · obtain ⟨v, hv⟩ := D.get?_of_has d k hk
-      simp only [hk, if_true, hv]
-      refine ⟨(p.1, v) :: r, ?_⟩
-      simp only [hd] at hr
-      simp [hr]
-    · simp only [Bool.not_eq_true] at hk
-      simp only [hk]
-      refine ⟨r, ?_⟩
-      simp only [hd] at hr
-      simp [hr]
+    have hp : columnEntry k p = .ok (if D.has d k then (D.get? d k).map (fun x => (p.1, x)) else Option.none) := by
+      simp only [columnEntry, hd, keyIn, V.items, ok_bind]
+      by_cases hk : D.has d k = true
+      · obtain ⟨v, hv⟩ := D.get?_of_has d k hk
+        simp [hk, hv]; rfl
+      · simp only [Bool.not_eq_true] at hk
+        simp [hk]; rfl
+    simp only [List.filterMapM_cons, hp, hr, ok_bind]
+    cases (if D.has d k then (D.get? d k).map (fun x => (p.1, x)) else Option.none) with
+    | none => exact ⟨r, rfl⟩
+    | some y => exact ⟨y :: r, rfl⟩
 
 /-! ### multi-stage -/
 
